@@ -279,6 +279,23 @@ def seg_total(ctx, repo):
                     got = set(vals) & SEG_ONCURVE
                     if len(got) >= 2:
                         n += 1
+                        # the type missing from the list may have an arm of its own in the same if / elif chain on the same variable
+                        st = parent(node)
+                        while st is not None and not isinstance(st, ast.stmt):
+                            st = parent(st)
+                        if isinstance(st, ast.If):
+                            root = st
+                            while isinstance(parent(root), ast.If) and parent(root).orelse == [root]:
+                                root = parent(root)
+                            arm = root
+                            while isinstance(arm, ast.If):
+                                for c2 in ast.walk(arm.test):
+                                    if isinstance(c2, ast.Compare) and len(c2.ops) == 1 and norm(c2.left) == norm(node.left) and c2 is not node:
+                                        if isinstance(c2.ops[0], ast.Eq) and isinstance(c2.comparators[0], ast.Constant):
+                                            got = got | ({c2.comparators[0].value} & SEG_ONCURVE)
+                                        elif isinstance(c2.ops[0], ast.In) and isinstance(c2.comparators[0], (ast.List, ast.Tuple, ast.Set)):
+                                            got = got | ({e.value for e in c2.comparators[0].elts if isinstance(e, ast.Constant)} & SEG_ONCURVE)
+                                arm = arm.orelse[0] if len(arm.orelse) == 1 else None
                         ok = got == SEG_ONCURVE
                         ctx.consult(rel)
                         ctx.ob("SEG-total", f.where, f"{norm(node)[:70]}", ok, "" if ok else f"{sorted(SEG_ONCURVE - got)} segments are treated differently from the other point-carrying segments (their end point is not tracked)")
